@@ -61,14 +61,20 @@ PRED = {
     "value.is_callable()": "callable",
     "value.is_indexable()": "indexable",
     "value.is_iterable()": "iterable",
+    # every map is accepted by `Iterable` (a for loop iterates its entries), requests/C16-fix-5.diff
+    "value.is_iterable() || matches!(value, KValue::Map(_))": "iterable",
 }
 specials = []
+iterable_hint_accepts_maps = False
+arms_src = re.sub(r"^\s*//[^\n]*\n", "", arms_src, flags=re.M)
 pos = 0
 while True:
-    am = re.match(r'\s*"([^"]+)"\s*=>\s*([^,{]+),', arms_src[pos:])
+    am = re.match(r'\s*"([^"]+)"\s*=>\s*([^\n{]+?),\s*\n', arms_src[pos:])
     if not am:
         break
     name, rhs = am.group(1), am.group(2).strip()
+    if "KValue::Map(_)" in rhs:
+        iterable_hint_accepts_maps = True
     if rhs not in PRED:
         die(f"compare_value_type: special name {name!r} selects an unknown predicate {rhs!r}")
     specials.append((name, PRED[rhs]))
@@ -96,7 +102,7 @@ tas = fn_body(value, "type_as_string", "value.rs")
 m = re.search(r"match\s+&?self\s*\{", tas)
 if not m:
     die("type_as_string: `match &self` not found")
-body = tas[m.end():]
+body = re.sub(r"^\s*//[^\n]*\n", "", tas[m.end():], flags=re.M)
 # arms: `Pat [| Pat]* [if guard] => lazy!(KString; "Name"),` or the two special arms (Map with meta, Object)
 arm_re = re.compile(r"\s*([A-Za-z_][\w]*(?:\s*(?:\([^)]*\)|\{[^}]*\}))?(?:\s*\|\s*[A-Za-z_][\w]*(?:\s*(?:\([^)]*\)|\{[^}]*\}))?)*)"
                     r"(?:\s+if\s+([^=]+?))?\s*=>\s*")
@@ -299,6 +305,9 @@ out.append("def iterableKind : Kind → Bool")
 for c in sorted(set(VARIANT_KIND[v] for v in itb_true) | {"map"}):
     out.append(f"  | .{c} => true")
 out.append("  | _ => false")
+out.append("")
+out.append("/-- does the hint `Iterable` accept every map, whatever `is_iterable` says? -/")
+out.append(f"def iterableHintAcceptsMaps : Bool := {'true' if iterable_hint_accepts_maps else 'false'}")
 out.append("")
 out.append("/-- `is_iterable` for a map *with* a metamap: does it need `@iterator` or `@next`? -/")
 out.append(f"def objIterableNeedsKeys : Bool := {'true' if obj_iter_needs_keys else 'false'}")
